@@ -112,7 +112,9 @@ fn classify_c10(flat: &[(&M, &D)], obs: &Obs, deps: &BTreeSet<String>) -> Vec<(b
         if pool == 0 {
             break;
         }
-        if cls[i] == (true, true) && deps.contains(&d.name) && d.fault.is_none() && !d.no_output() {
+        // a definition whose bare name is also defined elsewhere is accounted for by the collision finding, not here
+        let collides = flat.iter().enumerate().any(|(k, (_, d2))| k != i && d2.name == d.name);
+        if cls[i] == (true, true) && deps.contains(&d.name) && d.fault.is_none() && !d.no_output() && !collides {
             let mn = norm_mod(&m.name);
             let represented = obs.mods.iter().any(|(n, items)| n == &mn && items.iter().any(|(id, _)| id == &d.rust_name()));
             if !represented {
